@@ -215,4 +215,4 @@ def st_case_t(ctx: Ctx):
     return st_case(ctx).map(lambda d: {**d, "thorough": ctx.thorough})
 
 
-PARTS = [Part("trees", check_tree, strategy=st_case_t, quick=1600, thorough=40000)]
+PARTS = [Part("trees", check_tree, strategy=st_case_t, quick=2400, thorough=48000)]
